@@ -82,6 +82,13 @@ type Result struct {
 	Backtracks int   // number of failed sub-evaluations (non-triviality measure)
 	MaxDepth   int
 	KindsEval  [gast.NKinds]int
+	// throw/recover coverage
+	HandlerRuns    int // recovery expressions evaluated
+	HandlerFall    int // a recovery expression failed and an outer handler was tried
+	ThrowInHandler int // throws evaluated while a recovery expression was running
+	RecInHandler   int // recovery operators entered while a recovery expression was running
+	ThrowUnhandled int
+	SiblingRec     int // recovery operators entered after another one at the same nesting depth was left
 }
 
 type state struct {
@@ -143,6 +150,9 @@ type interp struct {
 	// where the parser "is" when a panic happens (for the recovered-panic error)
 	curPos  int
 	curRule *gast.Rule
+	inHandler int
+	recDepth  int
+	recLeft   map[int]bool
 }
 
 // Run evaluates the grammar on the input under the options.
@@ -577,13 +587,28 @@ func (it *interp) eval(e *gast.Expr, pos int, st *state, fr frame, h *handler, r
 		return true, pos, nil, nst
 
 	case gast.Throw:
+		if it.inHandler > 0 {
+			it.res.ThrowInHandler++
+		}
+		tried := 0
 		for x := h; x != nil; x = x.up {
 			if !x.labels[e.Label] {
 				continue
 			}
-			if ok, end, v, nst := it.eval(x.expr, pos, st, fr, h, rule, inv); ok {
+			if tried > 0 {
+				it.res.HandlerFall++
+			}
+			tried++
+			it.res.HandlerRuns++
+			it.inHandler++
+			ok, end, v, nst := it.eval(x.expr, pos, st, fr, h, rule, inv)
+			it.inHandler--
+			if ok {
 				return true, end, v, nst
 			}
+		}
+		if tried == 0 {
+			it.res.ThrowUnhandled++
 		}
 		return false, pos, nil, st
 
@@ -593,7 +618,19 @@ func (it *interp) eval(e *gast.Expr, pos int, st *state, fr frame, h *handler, r
 			ls[l] = true
 		}
 		nh := &handler{labels: ls, expr: e.Subs[1], up: h}
+		if it.inHandler > 0 {
+			it.res.RecInHandler++
+		}
+		if it.recLeft == nil {
+			it.recLeft = map[int]bool{}
+		}
+		if it.recLeft[it.recDepth] {
+			it.res.SiblingRec++
+		}
+		it.recDepth++
 		ok, end, v, nst := it.eval(e.Subs[0], pos, st, fr, nh, rule, inv)
+		it.recDepth--
+		it.recLeft[it.recDepth] = true
 		if !ok {
 			return false, pos, nil, st
 		}
